@@ -3,6 +3,7 @@ package c11
 import (
 	"fmt"
 	"net"
+	"os"
 	"time"
 
 	"github.com/libp2p/go-libp2p/core/network"
@@ -38,6 +39,7 @@ func (w *world) doReserve(op opT) string {
 	w.arm(op, cl, nil)
 	r := w.reserveCall(cl, op.raw, op.fault == faultHop)
 	simrt.WaitIdle()
+	w.settleTagRace(op)
 	fired := w.disarm(op, before)
 	if fired && op.fault == faultIO {
 		w.killConn(cl)
@@ -53,6 +55,11 @@ func (w *world) doReserve(op opT) string {
 	w.applyReserve(cl, ips, r, disc[cl.idx])
 	w.applyDisc(disc, map[int]bool{cl.idx: true})
 	out := fmt.Sprintf("%s from %v%s", stName(r.status), ips, map[bool]string{true: " [fault fired]", false: ""}[faulted])
+	if disc[cl.idx] {
+		// the connection died while the RESERVE was in flight
+		w.racedDisc[cl.idx] = true
+		out += w.probeConnectTo(cl.idx)
+	}
 	if w.c2Seen {
 		// evidence for the report: the reservation whose refresh was refused is still honoured
 		for _, h := range w.m.keys() {
@@ -84,17 +91,22 @@ func (w *world) judgeReserve(cl *cli, ips []string, r rsvResult, faulted bool, g
 	// in a batch, reservations granted concurrently may have been counted before this request
 	mayExtra, mayExtraIP, mayExtraAS := 0, 0, 0
 	for q, qips := range granted {
-		if q == cl.idx || m.maybeThere(q, r.t0) {
+		if q == cl.idx {
 			continue
 		}
-		mayExtra++
+		var had []string // where the model already counts q (a refresh granted in the batch may have moved it to another IP / AS)
+		if m.maybeThere(q, r.t0) {
+			had = m.rsv[q].ips
+		} else {
+			mayExtra++
+		}
 		for _, ip := range ips {
-			if contains(qips, ip) {
+			if contains(qips, ip) && !contains(had, ip) {
 				mayExtraIP++
 				break
 			}
 		}
-		if sameAS(qips, ips) {
+		if sameAS(qips, ips) && !sameAS(had, ips) {
 			mayExtraAS++
 		}
 	}
@@ -291,6 +303,7 @@ func (w *world) doConnect(op opT) string {
 	r := rawConnect(ctx, src.nd.Host, w.R.nd.ID, dst.nd.ID, hop)
 	cancel()
 	simrt.WaitIdle()
+	w.settleTagRace(op)
 	fired := w.disarm(op, before)
 	if fired && op.fault == faultIO {
 		if op.ioOnDst {
@@ -358,6 +371,15 @@ func (w *world) doConnect(op opT) string {
 		out += " [fault fired]"
 	}
 	return out
+}
+
+// settleTagRace lets the virtual millisecond pass for which cmWrap holds the relay's task (the requester may have
+// returned at once because its connection was closed under it).
+func (w *world) settleTagRace(op opT) {
+	if op.fault == faultTag {
+		simrt.TimeSleep(2 * time.Millisecond)
+		simrt.WaitIdle()
+	}
 }
 
 // killConn: after an injected I/O fault the TCP connection is dead for both ends (a stalled one would
@@ -437,6 +459,24 @@ func (w *world) judgeConnect(s, d int, st pbv2.Status, t0, t1 time.Duration, fau
 	case pbv2.Status_NO_RESERVATION:
 		if defRsv {
 			w.violate("C11/reservation-lost", "%s -> %s refused with NO_RESERVATION although %s holds a live reservation and never disconnected: %s", sn, dn, dn, w.rsvDump())
+		}
+		if b == nil {
+			// NO_RESERVATION at a quiescent instant: the relay holds no reservation for the destination, so the
+			// destination carries no reservation tag either. Sound on the unchanged tree whatever the order in which a
+			// RESERVE and its peer's disconnect were handled: the tag is only set together with the entry of
+			// Relay.rsvp (handleReserve, one critical section), and every path that deletes the entry untags
+			// afterwards (gc in the same section; disconnected() right after it, finished at quiescence), so a tag
+			// can only outlive its entry if TagPeer runs after the deletion. Temporary connection-manager entries are
+			// never pruned here (trims need > lowWater=1000 connections).
+			if _, tagged := w.tags(w.cl[d])["relay-reservation"]; tagged && !w.leakReported["rsv-tag"] {
+				w.leakReported["rsv-tag"] = true
+				disc := "no-reservation-answered"
+				if w.racedDisc[d] {
+					disc = "after-disconnect-race"
+				}
+				w.violate("C11/connmgr-tag-left/relay-reservation/"+disc, "%s -> %s answered NO_RESERVATION, yet the relay's connection manager still tags %s %s (relay connected to it: %v); history: %v",
+					sn, dn, dn, tagString(w.tags(w.cl[d])), w.R.nd.Swarm.Connectedness(w.cl[d].nd.ID), w.hist)
+			}
 		}
 		if maybeRsv {
 			w.o.Probe("no-reservation-on-expired-or-uncertain")
@@ -640,6 +680,11 @@ func (w *world) doDisconnect(op opT) string {
 	simrt.WaitIdle()
 	disc := w.takeDisc()
 	if !disc[cl.idx] && w.o.Trouble == "" {
+		if debug {
+			for _, g := range simrt.BubbleGoroutines() {
+				fmt.Fprintln(os.Stderr, "G:", g)
+			}
+		}
 		w.o.Trouble = "the relay did not see " + w.cfg.name(cl.idx) + " disconnect"
 	}
 	w.applyDisc(disc, nil)
@@ -824,7 +869,9 @@ func (w *world) audit(where string) {
 		if _, ok := tg["relay-reservation"]; ok && w.m.rsv[cl.idx] == nil && !w.leakReported["rsv-tag"] {
 			w.leakReported["rsv-tag"] = true
 			class := "C11/connmgr-tag-left/relay-reservation"
-			if w.m.whyNone(cl.idx) == "after-disconnect" && w.relayedOnly(cl) {
+			if w.racedDisc[cl.idx] {
+				class += "/after-disconnect-race"
+			} else if w.m.whyNone(cl.idx) == "after-disconnect" && w.relayedOnly(cl) {
 				// the reservation went away with the peer's last direct connection while a limited (relayed) connection
 				// keeps the connection manager's entry alive: only an explicit UntagPeer could remove the tag
 				class += "/limited-connection-remains"
@@ -930,4 +977,17 @@ func (w *world) doXDropDirect(op opT) string {
 		out += "; connect: " + w.doConnect(opT{kind: opConnect, a: op.b, b: op.a, fwd: 4, back: 4})
 	}
 	return out
+}
+
+// probeConnectTo asks the relay for a circuit to client c from some other direct client: the answer tells
+// whether the relay holds a reservation for c (NO_RESERVATION = none), which judgeConnect ties to c's tag.
+func (w *world) probeConnectTo(c int) string {
+	for s := 0; s < w.cfg.nCl; s++ {
+		if s == c || (w.cfg.denySrc == s && w.cfg.denyDst == c) || w.m.cntMaybe(s) >= w.cfg.maxCirc || w.m.cntMaybe(c) >= w.cfg.maxCirc {
+			continue
+		}
+		w.o.Probe("probe-connect-after-disconnect-race")
+		return fmt.Sprintf("; probe CONNECT(%s->%s) => %s", w.cfg.name(s), w.cfg.name(c), w.doConnect(opT{kind: opConnect, a: s, b: c, fwd: 4, back: 4}))
+	}
+	return ""
 }
